@@ -11,22 +11,25 @@ from ..refs import dip_ref as D
 from ..refs import units_ref as R
 
 ID = "C17"
-RULE = ("A source tree (float with unit, int, bool, str, float array, a nested node that may be !constant or carry "
-        "options) held locally, in a second .dip file written to a per-case temporary directory, or in a base "
-        "Environment from an earlier parse; then a generated sequence of operations in text order: modifications of "
-        "source nodes, value injections {?p} / {src?p} into new typed hosts or as modifications of existing hosts, with "
-        "the host unit stated or not, slices on arrays and strings, imports {?p.*}, {?p}, {?*} below groups, and at "
-        "most one terminal probe (injection selecting none / several, import selecting nothing, modification refused "
-        "by an imported constraint, an option added to an imported copy: accepted there, still refused by the original); "
-        "a computed boolean source (src.cmp = comparison of src.cnt), a source that is itself an injection host (src.ref), one "
-        "declared in the group and assigned after it (src.late), a 2x3 matrix with two-axis slices; imports onto an "
-        "existing node of another unit; imports of hosts that were themselves created by "
-        "(sliced) injections. Oracle: a model environment replayed in text order (injected value = current "
-        "value of the source, slice applied; unit rule as stated; then conversion into the host's definition unit; "
-        "imports copy value, type, unit and constraints). The base environment's data(TUPLE) and unit list must be "
-        "identical before and after. Non-trivial: an injection after a modification of the source, or with a unit "
-        "Round 4: a source node with value and children, import-modify-reference, options and $unit given by reference, a sourced file rewritten between parses. "
-        "change, or a slice, or an import with constraints. Distinct = distinct case JSON.")
+RULE = (
+    'A source tree (float with unit, int, bool, str, float array, a nested node that may be !constant or carry '
+    'options) held locally, in a second .dip file written to a per-case temporary directory, or in a base '
+    'Environment from an earlier parse; then a generated sequence of operations in text order: modifications of '
+    'source nodes, value injections {?p} / {src?p} into new typed hosts or as modifications of existing hosts, '
+    'with the host unit stated or not, slices on arrays and strings, imports {?p.*}, {?p}, {?*} below groups, and '
+    'at most one terminal probe (injection selecting none / several, import selecting nothing, modification '
+    'refused by an imported constraint, an option added to an imported copy: accepted there, still refused by the '
+    'original); a computed boolean source (src.cmp = comparison of src.cnt), a source that is itself an injection '
+    'host (src.ref), one declared in the group and assigned after it (src.late), a 2x3 matrix with two-axis '
+    'slices; imports onto an existing node of another unit; imports of hosts that were themselves created by '
+    '(sliced) injections. Oracle: a model environment replayed in text order (injected value = current value of '
+    "the source, slice applied; unit rule as stated; then conversion into the host's definition unit; imports "
+    "copy value, type, unit and constraints). The base environment's data(TUPLE) and unit list must be identical "
+    'before and after. Non-trivial: an injection after a modification of the source, or with a unit change, or a '
+    'slice, or an import with constraints. Round 4: a source node with value and children, '
+    'import-modify-reference, options and $unit given by reference, a sourced file rewritten between parses. '
+    'Distinct = distinct case JSON.'
+)
 ASSUMPTIONS = [
     "remote sources are immutable inside one parse: source modifications are generated for local/base sources only",
     "before every remote case the same path is sourced once with other content (a file may change between two parses)",
